@@ -282,6 +282,15 @@ def rule_acr122(report, prog):
         okk, p = only_via(cfg, ret[0], edges, ps=False) if edges and ret else (False, None)
         report.check(okk, 'C14-R3', key(f.qname, 'CCID response accepted only after check: ' + what), f.loc(),
                      'ccid_xfr_block accepts a response without the check: %s' % what, fmt(cfg, p))
+    # ... and the frame that is returned is the frame that was checked: after each read from the transport every check lies on
+    # every path to the return (a second read behind the checks -- retry, time extension -- would hand out an unchecked block)
+    reads = [n for n in cfg.nodes if n.kind == 'stmt' and isinstance(n.ast, ast.Assign) and norm(n.ast.targets[0]) == 'frame'
+             and 'self.transport.read(' in norm(n.ast.value)]
+    for what, pred in sorted(want.items()):
+        edges = [(t, 'false') for e, t in cfg.test_nodes.items() if pred(norm(e))]
+        bad_ = [r for r in reads if ret and edges and ret[0] in cfg.reachable(r, avoid_edges=edges)]
+        report.check(bool(reads) and not bad_, 'C14-R3', key(f.qname, 'every block read from the reader passes the check: ' + what), f.loc(bad_[0].ast) if bad_ else f.loc(),
+                     'a block read by `%s` reaches the return without the check: %s' % (norm(bad_[0].ast)[:60] if bad_ else '', what))
     report.check(bool(ret) and norm(ret[0].ast.value) == 'frame[10:]', 'C14-R3', key(f.qname, 'payload starts after the 10 byte header'),
                  f.loc(), 'returned payload slice changed')
     raises = [x for x in walk_no_nested(f.node) if isinstance(x, ast.Raise)]
@@ -406,7 +415,7 @@ def rule_crc(report, prog):
                      'add/check byte order disagree: %s / %s' % (norm(r_add), norm(r_chk)))
 
 
-def rule_crc_routing(report, prog):
+def rule_crc_routing(report, prog, rule='C14-R7'):
     """R7: whenever a driver switches the chip's receive CRC check off for a target, responses of that target go through the driver's
     own CRC_A check: the condition that disables the chip check and the condition that routes to _tt2_send_cmd_recv_rsp select the
     same targets (otherwise a corrupted response of a target in the gap is returned as data, CRC bytes included)."""
@@ -418,7 +427,7 @@ def rule_crc_routing(report, prog):
     sr = prog.func('nfc.clf.pn53x.Device.send_cmd_recv_rsp')
     route = [i for i in ast.walk(sr.node) if isinstance(i, ast.If) and any(isinstance(x, ast.Return) and '_tt2_send_cmd_recv_rsp(' in norm(x) for x in i.body)]
     okk = len(off) == 1 and len(route) == 1 and strip(norm(off[0].test)) == strip(norm(route[0].test))
-    report.check(okk, 'C14-R7', key(sr.qname, 'software CRC_A check for exactly the targets whose chip CRC check was switched off'), sr.loc(route[0]) if route else sr.loc(),
+    report.check(okk, rule, key(sr.qname, 'software CRC_A check for exactly the targets whose chip CRC check was switched off'), sr.loc(route[0]) if route else sr.loc(),
                  'sense_tta switches the chip CRC check off for `%s` but send_cmd_recv_rsp routes `%s` to the software check: responses of the targets in '
                  'between are returned without any CRC verification' % (norm(off[0].test) if off else '?', norm(route[0].test) if route else '?'))
     # the routed branch must not be shadowed by an enclosing condition other than "type A target without DEP"
@@ -426,8 +435,85 @@ def rule_crc_routing(report, prog):
     r3 = prog.func('nfc.clf.rcs380.Device.send_cmd_recv_rsp')
     br = [i for i in ast.walk(r3.node) if isinstance(i, ast.If) and any("in_set_protocol_settings['check_crc'] = 0" == norm(x) for x in i.body)]
     okk = len(br) == 1 and any(isinstance(x, ast.Return) and '_tt2_send_cmd_recv_rsp(' in norm(x) for x in br[0].body)
-    report.check(okk, 'C14-R7', key(r3.qname, 'the branch that disables the chip CRC check returns through the software CRC_A check'), r3.loc(),
+    report.check(okk, rule, key(r3.qname, 'the branch that disables the chip CRC check returns through the software CRC_A check'), r3.loc(),
                  'rcs380 disables check_crc without routing the response through _tt2_send_cmd_recv_rsp')
+    # the software-CRC path hands out 1 and 2 byte frames unverified (the 4 bit ACK / NAK of Type 2 Tags): only a Type 2 Tag may
+    # take it.  Both routing conditions are folded for every SEL_RES value: true exactly when bits 6 and 7 (ISO 14443-4 / NFC-DEP
+    # capability) are clear, so ISO-DEP and NFC-DEP frames are always CRC-checked by the chip.
+    for fn, cond in ((sr, route[0].test if route else None), (r3, br[0].test if br else None)):
+        if cond is None:
+            continue
+        bad = []
+        for b in range(256):
+            v = try_const(cond, {'target.brty': '106A', 'target.sel_res': bytearray([b]), 'target.sel_res[0]': b, 'target.sens_res': bytearray(2),
+                                 'target.atr_res': None, 'target.rid_res': None}, default=NotImplemented)
+            if v is NotImplemented:
+                bad = ['cannot fold `%s`' % norm(cond)]
+                break
+            if bool(v) != (b & 0x60 == 0):
+                bad.append('SEL_RES %02Xh %s' % (b, 'takes the Type 2 path' if v else 'does not take the Type 2 path'))
+        report.check(not bad, rule, key(fn.qname, 'only Type 2 Tags (SEL_RES bits 6,7 clear) take the software-CRC path'), fn.loc(),
+                     '%s: %s: frames of an ISO-DEP / NFC-DEP capable target are returned without CRC verification when they are 1 or 2 byte long'
+                     % (fn.qname, '; '.join(bad[:3])))
+
+
+def pn53x_frame_ok(v):
+    """A byte string written to / expected from a PN53x host link: optional preamble (55h / 00h), then ACK, NACK or a frame with valid
+    LEN/LCS, data checksum and postamble (normal or extended).  Returns None if fine, else what is wrong."""
+    v = bytes(v)
+    i = v.find(b'\x00\x00\xff')
+    if i < 0:
+        return 'no start of frame'
+    if any(b not in (0x00, 0x55) for b in v[:i]):
+        return 'junk in front of the start of frame'
+    f = v[i:]
+    if f in (b'\x00\x00\xff\x00\xff\x00', b'\x00\x00\xff\xff\x00\x00'):
+        return None
+    if f[3:5] == b'\xff\xff':
+        if len(f) < 8 or sum(f[5:8]) & 255:
+            return 'extended length checksum'
+        ln, body = f[5] * 256 + f[6], f[8:]
+    else:
+        if len(f) < 5 or (f[3] + f[4]) & 255:
+            return 'length checksum (LEN %02Xh, LCS %02Xh)' % (f[3], f[4] if len(f) > 4 else 0)
+        ln, body = f[3], f[5:]
+    if len(body) != ln + 2:
+        return 'length field %d does not match %d data bytes' % (ln, len(body) - 2)
+    if sum(body[:ln + 1]) & 255:
+        return 'data checksum %02Xh, should be %02Xh' % (body[ln], (256 - sum(body[:ln])) & 255)
+    if body[ln + 1] != 0:
+        return 'postamble'
+    return None
+
+
+def rule_pn532_init_frames(report, prog):
+    """R3: the hand-built frames pn532.init() writes before a Chipset object exists (GetFirmwareVersion, SAMConfiguration,
+    SetSerialBaudRate for every selectable baud rate) are well-formed: each `transport.write(x)` argument is folded by the checker
+    (templates that are patched by subscript stores included) and run through the frame format."""
+    from ..q import fold_lenient
+    f = prog.func('nfc.clf.pn532.init')
+    n = 0
+    bad = []
+    for baud in (115200, 230400, 460800, 921600):
+        seen = []
+
+        def visit(st, env):
+            if isinstance(st, ast.Expr) and isinstance(st.value, ast.Call) and norm(st.value.func) == 'transport.write' and st.value.args:
+                v = try_const(st.value.args[0], env, default=NotImplemented)
+                seen.append((st, v))
+        env = {'baudrate': baud, 'change_baudrate': True, 'transport.TYPE': 'TTY', 'transport.port': '/dev/ttyUSB0', 'sys.platform': 'linux',
+               'Chipset.ACK': bytearray.fromhex('0000FF00FF00')}
+        fold_lenient(f.node.body, env, seeds=('baudrate', 'change_baudrate'), visit=visit)
+        for st, v in seen:
+            n += 1
+            if v is NotImplemented:
+                bad.append('baud rate %d: cannot fold `%s`' % (baud, norm(st)[:60]))
+            else:
+                why = pn53x_frame_ok(v)
+                if why:
+                    bad.append('baud rate %d: `%s` writes %s: %s' % (baud, norm(st)[:50], bytes(v).hex(), why))
+    report.check(not bad and n >= 8, 'C14-R3', key(f.qname, 'hand-built set-up frames are well-formed for every baud rate'), f.loc(),
+                 'pn532.init: %s' % ('; '.join(bad[:2]) if bad else 'only %d frames found' % n), detail='%d written frames folded' % n)
 
 
 def rule_crc_enforced(report, prog):
@@ -472,6 +558,7 @@ def run(report, prog, tier):
     rule_crc(report, prog)
     rule_crc_enforced(report, prog)
     rule_crc_routing(report, prog)
+    rule_pn532_init_frames(report, prog)
     report.trusted += ['PN53x host link frame format (NXP UM0701-02 6.2.1), RC-S380 frame format, CCID RDR_to_PC_DataBlock layout as '
                        'encoded in the checker\'s independent validators', 'struct semantics of the checker interpreter']
     report.assumptions += ['frames are evaluated from the extracted expressions by the checker\'s evaluator; the repository is not executed']
@@ -479,6 +566,15 @@ def run(report, prog, tier):
 
 X = 'nfc.clf.pn53x'
 MUTANTS = [
+    ('acr122-second-read-unchecked', 'nfc.clf.acr122', """            log.error("RDR_to_PC_DataBlock length mismatch")
+            raise IOError(errno.EIO, os.strerror(errno.EIO))
+        return frame[10:]""", """            log.error("RDR_to_PC_DataBlock length mismatch")
+            raise IOError(errno.EIO, os.strerror(errno.EIO))
+        if frame[7] & 0xC0 == 0x80:
+            frame = self.transport.read(int(timeout * 1000))
+        return frame[10:]""", 'C14-R3'),
+    ('pn532-init-baudrate-checksum', 'nfc.clf.pn532', "            set_baudrate_cmd[8] = 256 - sum(set_baudrate_cmd[5:8])", "            set_baudrate_cmd[8] = 256 - sum(set_baudrate_cmd[6:8])", 'C14-R3'),
+    ('pn532-init-sam-frame-literal', 'nfc.clf.pn532', 'bytearray.fromhex("0000ff05fbd4140100001700")', 'bytearray.fromhex("0000ff05fbd4140100001600")', 'C14-R3'),
     ('pn53x-resync-on-start-of-frame', 'nfc.clf.pn53x', """        if frame.startswith(self.SOF + b'\\xFF\\xFF'):
             # extended frame""", """        if frame.find(self.SOF) > 0:
             del frame[0:frame.find(self.SOF)]
